@@ -42,6 +42,8 @@ def check_config(cfg, w, rep):
             if not lvls or role in ("src",):
                 continue
             lvl = min(lvls)
+            if e.kind in ("SetPerm",):
+                continue    # changes mode bits, not the bytes or the existence of a content file (confinement: C15; removals: C09)
             n += 1
             lf = effect_fn(w, e)
             key = "%s:%s:%s" % (fn_key(lf), e.kind, role)
@@ -100,7 +102,14 @@ def check_config(cfg, w, rep):
             continue
         n_w += 1
         lf = effect_fn(w, e)
-        shapes = {shape(x) for x in fw.expanded(e).get("handle", set()) | fw.expanded(e).get("path", set())}
+        exps = fw.expanded(e).get("handle", set()) | fw.expanded(e).get("path", set())
+        # a file at the caller's explicit destination parameter (an extraction target) is outside the content area
+        exps = {x for x in exps if not (shape(x) in ("Handle(Entry)", "Entry") and fw.entry_role(leaf(x)) == "other")}
+        if not exps:
+            rep.ob(cfg, "c-writes-to-temp", "%s:%s:dest" % (fn_key(lf), e.flags.get("op", e.kind)),
+                   "data write in `%s` targets the caller's explicit destination, not the content area" % short(lf.path))
+            continue
+        shapes = {shape(x) for x in exps}
         okset = {"TempIn(Join(Entry,'tmp'))", "Mmap(TempIn(Join(Entry,'tmp')))", "Handle(Bucket(Entry))"}
         if shapes and shapes <= okset:
             rep.ob(cfg, "c-writes-to-temp", "%s:%s" % (fn_key(lf), e.flags.get("op", e.kind)),
